@@ -198,8 +198,8 @@ func pendingOut() out { return out{Hung: true} }
 
 func main() {
 	ev.MainIsolated("C11", "exploration", 90*time.Minute, func(r *ev.Run) {
-		r.Rule("barrier-started rounds: 2..16 goroutines share one shim (built with shimagent.New in both upstream modes, or reached through real yubiagent.ServeAgent connections and clients), each issues up to 6 operations from {list, signers, sign, sign with hardware cert, add, remove, remove-all, add-hardware-cert, lock, unlock, extension, raw forward}; between construction and the barrier a feeder puts already-expired certificates and fresh YSSHCA certificates directly into the keyring so that purging and cache fills happen during the concurrent phase; the underlying agent delays replies by 0..2 ms (seeded). Monitors: race detector (reports touching repository code), pipelined requests on the single upstream connection, reply/request tag matching and signature verification, porcupine linearizability of the recorded history against a sequential model (state = tracked plain keys x tracked hardware certificates x lock), completion watchdog. distinct_nontrivial = distinct rounds (by recorded history) in which at least two operations of different clients overlapped in time")
-		r.Assume("sampled schedules only", "the concurrent phase never removes a plain key that backs a tracked hardware certificate except through remove-all, and never locks the keyring directly, so the model stays deterministic", "signers returned by Signers() are not used concurrently (they bypass the shim by design)")
+		r.Rule("barrier-started rounds: 2..16 goroutines share one shim (built with shimagent.New in both upstream modes, or reached through real yubiagent.ServeAgent connections and clients), each issues up to 6 operations from {list, signers, sign, sign with hardware cert, add, remove, remove-all, add-hardware-cert, lock, unlock, extension, raw forward, sign through a hardware-certificate signer handed out by Signers() before the barrier}; between construction and the barrier a feeder puts already-expired certificates and fresh YSSHCA certificates directly into the keyring so that purging and cache fills happen during the concurrent phase; the underlying agent delays replies by 0..2 ms (seeded). Monitors: race detector (reports touching repository code), pipelined requests on the single upstream connection, reply/request tag matching and signature verification, porcupine linearizability of the recorded history against a sequential model (state = tracked plain keys x tracked hardware certificates x lock), completion watchdog. distinct_nontrivial = distinct rounds (by recorded history) in which at least two operations of different clients overlapped in time")
+		r.Assume("sampled schedules only", "the concurrent phase never removes a plain key that backs a tracked hardware certificate except through remove-all, and never locks the keyring directly, so the model stays deterministic", "signers for identities of the underlying agent (which talk to it directly by design) are not used concurrently; hardware-certificate signers are")
 		gen.Pool()
 		rounds := r.Pick(300, 6000)
 		overlap := map[string]int{}
